@@ -24,7 +24,7 @@ def build_cases(chk):
         for c in b:
             k = c.get('kill')
             how = c.get('raise_how') or 'plain'
-            okey = '-' if k else (str(c['outcome']) if how == 'plain' else 'how:' + how)
+            okey = '-' if k else ('notarget' if c.get('notarget') else str(c['outcome']) if how == 'plain' else 'how:' + how)
             by[(c['kind'], okey, k['phase'] if k else None, k['sig'] if k else None)].append(c)
         cases = []
         for key in sorted(by, key=str):
